@@ -77,7 +77,9 @@ def compute_keys(calls, level):
         keys.append(ks[0] if len(ks) == 1 else 'NOKEY:%r' % (ks,))
         del spy.created[:]
         del spy.log[:]
-        spy.inner._recordings.clear()
+        store = getattr(spy.inner, '_recordings', None)     # (memory only: a cassette without that attribute just grows)
+        if hasattr(store, 'clear'):
+            store.clear()
     return keys
 
 
